@@ -383,6 +383,26 @@ func checkL2(cs *l2Case, o *pt.Obs) error {
 			stateful = true
 		}
 	}
+	// Domain: the chain only reads columns that exist in the index. A column that no event has does
+	// not exist at all; what commands make of a field that exists nowhere (null, "no such field", or —
+	// observed for sort/dedup after mvexpand — a server panic) is outside this property (C17/C02).
+	refCols := referencedColumns(cs)
+	for j, c := range tb.Cols {
+		if !refCols[c.Name] || c.Kind == kTime {
+			continue
+		}
+		exists := false
+		for _, r := range tb.Rows {
+			if !r[j].IsNull() {
+				exists = true
+				break
+			}
+		}
+		if !exists {
+			o.Class("out_of_domain/column_exists_nowhere")
+			return nil
+		}
+	}
 	if knownSkip(cs.Chain, o, true) {
 		return nil
 	}
@@ -450,26 +470,6 @@ func checkL2(cs *l2Case, o *pt.Obs) error {
 	}
 	if ref.err != "" {
 		return nil
-	}
-	// A column that no event has does not exist in the index at all; what commands make of a field
-	// that exists nowhere (null, or "no such field") is a value-level question outside this property.
-	ref2 := referencedColumns(cs)
-	for j, c := range tb.Cols {
-		if !ref2[c.Name] || c.Kind == kTime {
-			continue
-		}
-		exists := false
-		for _, r := range tb.Rows {
-			if !r[j].IsNull() {
-				exists = true
-				break
-			}
-		}
-		if !exists {
-			o.Class("model_abstains")
-			o.Class("model_abstains/column exists nowhere")
-			return nil
-		}
 	}
 	want, err := runModel(tb, cs.Chain)
 	if err != nil {
